@@ -272,6 +272,10 @@ def check_case(ctx, cr, out_name, write_log, rng, tier, max_subsets):
         cli_runs.clear_outputs(cr)
         for n in sub:
             (cr["dir"] / n).write_bytes(SENTINEL * 3 + ref_bytes[n])
+            if n.endswith(".info.yaml") and rng.random() < 0.7:
+                # the report of an earlier, different curation: well-formed, with entries this run does not produce
+                (cr["dir"] / n).write_bytes(ref_bytes[n] + b"manual_breaks_in_an_earlier_run: 3\nmanual_joins_in_an_earlier_run: 8\nnotes: added by hand\n")
+                ctx.count("clobber:well-formed-report-of-an-earlier-run-in-place")
         res = cli_runs.run_pretext_to_asm(cr, out_name, [*extra, "--clobber"] if rng.random() < 0.5 else extra)
         case = {**base_case, "subset": sub, "clobber": True}
         if res["exit_code"] != 0:
@@ -474,6 +478,7 @@ def gates(c, tier):
         "format:agp": 8,
         "format:tpf": 8,
         "log:on": 15,
+        "clobber:well-formed-report-of-an-earlier-run-in-place": 20,
         "earlier-invocation-in-process-runs": 30,
         "no-clobber:logging-already-configured-by-the-caller": 10,
         "log:off": 15,
